@@ -29,11 +29,6 @@ theorem reservoir_is_empty_eq {R : Type} (s : Reservoir.St R) : reservoir_is_emp
 theorem hll_clear_eq (s : Hll.St) : hll_clear s.regs.toList = Flow.cont (Hll.clear s).regs.toList := by
   simp [hll_clear, Hll.clear]
 
-/-- `w.checked_mul(d).unwrap()`: the model has the unchecked product, hence `h` -/
-theorem cms_clear_eq (s : Cms.St) (h : s.w * s.d < 2 ^ 64) :
-    cms_clear s.w s.d s.table.toList = Flow.cont (Cms.clear s).table.toList := by
-  simp [cms_clear, Cms.clear, KOps.checkedMul, h]
-
 theorem td_is_empty_eq {α : Type} (s : TDigest.St α) : td_is_empty s.centroids s.backlog = TDigest.isEmpty s := rfl
 
 /-- `QuotientFilter::clear` (the three `FixedBitSet::clear`, the refilled remainder vector, `n_elements = 0`) is the
